@@ -1,8 +1,8 @@
 import Gmx.Model.BuilderFee
 import Gmx.Driver.Util
--- ENGINE bfee bfeeEngine stateless
+-- ENGINE bfee BfeeE.bfeeEngine stateless
 /-! driver engine `bfee` — C32 (builder fee helpers; `U = 10^20`) -/
-namespace Gmx.Drv
+namespace Gmx.Drv.BfeeE
 open Gmx Gmx.BuilderFee
 
 def bfeeUnit : Nat := 10 ^ 20
@@ -58,4 +58,4 @@ def bfeeEngine (args : List String) : String :=
     | _ => "bad-op"
   | _ => "bad-op"
 
-end Gmx.Drv
+end Gmx.Drv.BfeeE
